@@ -1321,6 +1321,20 @@ def audit_static(ctx, case, h, ob):
             if what.startswith("linalg"):
                 ob.add("mapping", model_map_str(kind, m))
                 ob.add("bininc", mat_str(d[2]))
+                # ---- second extension round: the DUAL hypergraph (one hyperedge per node holding the indices of its hyperedges) is
+                # inside the Lean model (dualHyes / dualInc); its incidence through hye_list_to_binary_incidence is the transpose
+                if N >= 1 and E >= 1 and len(d[2]) == N and all(len(r_) == E for r_ in d[2]):
+                    dh = [[j for j in range(E) if d[2][i][j] != 0] for i in range(N)]
+                    darg = [tuple(np.int64(j) if crc(salt, "dualarg", j) % 3 == 0 else j for j in x) for x in dh]
+                    dres = guarded(lambda: dense(L.hye_list_to_binary_incidence(darg, (E, N))))
+                    ctx.count("dual_incidence")
+                    ob.add("dualhyes", hgxv.enc_lists(dh))
+                    if dres[0] == "exc":
+                        ctx.violation(case, f"hye_list_to_binary_incidence(dual hyperedges {dh}, shape=({E}, {N})) raised {dres[1]}")
+                    else:
+                        if dres[1][:2] != (E, N) or any(dres[1][2][j][i] != d[2][i][j] for i in range(N) for j in range(E)):
+                            ctx.violation(case, f"the incidence matrix of the dual hypergraph {dh} is not the transpose of the binary incidence matrix")
+                        ob.add("dualinc", mat_str(dres[1][2]))
                 same_without_mapping("linalg.binary_incidence_matrix", d, L.binary_incidence_matrix, h)
             else:
                 same_without_mapping("Hypergraph.binary_incidence_matrix", d, getattr(h, "binary_incidence_matrix"))
